@@ -943,8 +943,9 @@ func bkRunWorker(tab []bkIdx, request string, procs int) (string, []map[int]int,
 	fmt.Fprintf(&in, "idx *\nq 0 5000 1500000000000 %d %s\n", end, star)
 	cmd := exec.Command(os.Args[0], "e2eworker")
 	cmd.Stdin = &in
-	var stdout bytes.Buffer
+	var stdout, stderr bytes.Buffer
 	cmd.Stdout = &stdout
+	cmd.Stderr = &stderr
 	cmd.Env = append(os.Environ(), "GOMEMLIMIT=2GiB", fmt.Sprintf("GOMAXPROCS=%d", procs))
 	done := make(chan error, 1)
 	if err := cmd.Start(); err != nil {
@@ -954,7 +955,8 @@ func bkRunWorker(tab []bkIdx, request string, procs int) (string, []map[int]int,
 	select {
 	case err := <-done:
 		if err != nil {
-			return "", nil, &Result{Out: "worker-died", Fails: []PropFail{{Sig: "bulk-e2e/worker-crash", Msg: fmt.Sprintf("engine worker exited abnormally: %v", err)}}, Nontrivial: true}
+			what := bkCrashLines(stderr.String())
+			return "", nil, &Result{Out: "worker-died", Fails: []PropFail{{Sig: "bulk-e2e/worker-crash" + bkCrashClass(what), Msg: fmt.Sprintf("engine worker exited abnormally while handling the request(s) (every acknowledged, unflushed document is lost): %v: %s", err, what)}}, Nontrivial: true}
 		}
 	case <-time.After(120 * time.Second):
 		cmd.Process.Kill()
@@ -984,6 +986,50 @@ func bkRunWorker(tab []bkIdx, request string, procs int) (string, []map[int]int,
 		founds = append(founds, found)
 	}
 	return outLines[0], founds, nil
+}
+
+// the lines of a crashed worker's stderr that say what happened: the panic / fatal error line and the first frames in /repo
+func bkCrashLines(se string) string {
+	var keep []string
+	on := false
+	for _, l := range strings.Split(se, "\n") {
+		if strings.HasPrefix(l, "panic:") || strings.HasPrefix(l, "fatal error:") || strings.Contains(l, "[signal ") {
+			on = true
+			keep = append(keep, strings.TrimSpace(l))
+		} else if on && (strings.Contains(l, "siglens/pkg/") || strings.Contains(l, "cmd/corr/")) && len(keep) < 12 {
+			keep = append(keep, strings.TrimSpace(l))
+		}
+	}
+	if len(keep) == 0 {
+		return trunc(strings.TrimSpace(se), 600)
+	}
+	return strings.Join(keep, " | ")
+}
+
+// witness class of a crash: the Go runtime's "concurrent map …" fatal error, or a nil dereference, at a siglens
+// function, as "/concurrent-map-access@pkg/<package>.<function>" / "/nil-dereference@pkg/…"; "" for anything else
+func bkCrashClass(what string) string {
+	parts := strings.Split(what, " | ")
+	kind := ""
+	switch {
+	case strings.HasPrefix(parts[0], "fatal error: concurrent map"):
+		kind = "/concurrent-map-access@"
+	case strings.HasPrefix(parts[0], "panic: runtime error: invalid memory address or nil pointer dereference"):
+		kind = "/nil-dereference@"
+	default:
+		return ""
+	}
+	for _, site := range parts[1:] {
+		if !strings.HasPrefix(site, "github.com/siglens/siglens/pkg/") {
+			continue
+		}
+		site = strings.TrimPrefix(site, "github.com/siglens/siglens/")
+		if j := strings.LastIndex(site, "("); j > 0 {
+			site = site[:j]
+		}
+		return kind + site
+	}
+	return ""
 }
 
 func bkLetters(sts []int) string {
@@ -1133,8 +1179,16 @@ func execBulkE2E(line string) Result {
 		request, procs, where = "bulkpar "+strings.Join(hexes, " "), 8, "concurrent/"
 		tags = []string{fmt.Sprintf("concurrent-bodies=%d", len(bodies)), fmt.Sprintf("concurrent-index-names=%d", len(tab))}
 	}
+	// a worker that dies of a classified crash (a PropFail of its own, with the crash site as witness class) is
+	// started again, so that the case itself is still judged
+	var crashes []PropFail
 	first, founds, bad := bkRunWorker(tab, request, procs)
+	for try := 0; try < 3 && bad != nil && len(bad.Fails) == 1 && strings.HasPrefix(bad.Fails[0].Sig, "bulk-e2e/worker-crash/"); try++ {
+		crashes = append(crashes, bad.Fails[0])
+		first, founds, bad = bkRunWorker(tab, request, procs)
+	}
 	if bad != nil {
+		bad.Fails = append(crashes, bad.Fails...)
 		return *bad
 	}
 	var gots []string
@@ -1158,7 +1212,7 @@ func execBulkE2E(line string) Result {
 	for len(gots) < len(reqs) {
 		gots = append(gots, "")
 	}
-	res := Result{Nontrivial: nlines >= 2, Tags: tags}
+	res := Result{Nontrivial: nlines >= 2, Tags: tags, Fails: crashes}
 	stored := bkJudgeE2E(tab, founds, reqs, gots, &res, where)
 	res.Out = fmt.Sprintf("items=%s stored=%s", strings.Join(gots, "|"), stored)
 	return res
